@@ -75,6 +75,27 @@ class _NS:
     pass
 
 
+class _ZipTime:
+    """zipfile stamps members with time.localtime(time.time()); np.savez goes through it.
+    In simulation the stamp comes from the virtual clock so that saved bytes are a pure
+    function of the sketch."""
+
+    @staticmethod
+    def time():
+        return 1577836800.0 + CLOCK.now
+
+    @staticmethod
+    def localtime(t=None):
+        import time as _t
+
+        return _t.gmtime(1577836800.0 + CLOCK.now if t is None else t)
+
+    def __getattr__(self, name):
+        import time as _t
+
+        return getattr(_t, name)
+
+
 def boot(quiet=True):
     """Import the tree under test with a source-keyed numba cache and install seams."""
     global _booted, SK, TREE_HASH
@@ -139,6 +160,9 @@ def boot(quiet=True):
     # time seams: module-level names, no source hook needed
     for mod in (countmin, heavyhitters, hyperloglog, helpers):
         mod.sleep = _sim_sleep
+    import zipfile
+
+    zipfile.time = _ZipTime()
     SK = ns
     _booted = True
     import gc
